@@ -230,9 +230,23 @@ def run(ctx):
             reg = rb.reachable_from(nm)
             ws = [(op.split("::")[-1], bb2) for (f, op, bb2, w) in phonetic.field_writes(prog, reph_fn, mods, body=rb) if bb2 in reg and f[:1] == (buf,)]
             lits = []
+            # values as this branch computes them (`let tail = if moveable { cut() } else { String::new() }; … push_str(&tail)`: on the
+            # not-moveable side the tail is the empty string)
+            from engine.analyses import chain as _chain
+            try:
+                env_nm = rb.eval_path(_chain(rb, nm))
+            except Exception:
+                env_nm = {}
             for (opn, bb2) in sorted(ws, key=lambda w_: (0 if w_[1] == nm or w_[1] not in rb.reachable_from(nm) else 1, len(rb.reachable_from(w_[1])) * -1)):
                 t2 = rb.blocks[bb2]["term"]
                 a1 = peel_conv(rb.expr_operand(t2["args"][1])) if t2["k"] == "call" and len(t2["args"]) > 1 else None
+                if a1 is not None and a1.k != "const" and bb2 in _chain(rb, nm):
+                    a1p = strip_refs(peel_conv(rb.expr_operand(t2["args"][1], 0, env_nm)))
+                    while a1p.k == "call" and a1p.a[0].endswith(("::deref", "String::as_str")) and len(a1p.a[1]) == 1:
+                        a1p = strip_refs(peel_conv(a1p.a[1][0]))
+                    if a1p.k == "call" and a1p.a[0].endswith("String::new") and not a1p.a[1]:
+                        lits.append((opn, ""))
+                        continue
                 lits.append((opn, const_val(a1) if a1 is not None and a1.k == "const" else a1))
             if _join_literals(lits) == ["র্"]:
                 r2.ok("append", "not moveable: exactly র্ is appended")
